@@ -135,6 +135,13 @@ def check_seq(ctx, seq, shapes=SHAPES, share=False):
         if not same_ids(raw, deps):
             ctx.violation("dedup-false-not-document-order", "get_dependencies(dedup=False) in shape %s dropped or reordered" % shape, w)
             return False
+        # the returned list belongs to the caller: emptying it does not affect the next query
+        got_copy = list(got)
+        got.clear()
+        got = root.get_dependencies()
+        if not same_ids(got, got_copy):
+            ctx.violation("returned-list-aliased", "get_dependencies() after the caller emptied the previous result differs", w)
+            return False
         again = ht.TagList(*got).get_dependencies()
         if not same_ids(again, got):
             ctx.violation("resolution-not-idempotent", "resolving the resolved list changed it", w)
